@@ -112,7 +112,7 @@ def check_method(lang, prog, row, cfg, find_first, col, case_fn, shape_key):
     for u, v in edges:
         succ.setdefault(u, set()).add(v)
     transparent = {int(r["stmt_id"]) for r in prog.rows if r["operation"] in ("case_stmt", "default_stmt")}
-    own = walker.own_statement_ids(prog, row)
+    own = walker.own_statement_ids(prog, row) | {mid}        # the method_decl row itself may serve as the entry node
     for n in sorted(nodes - own - {-1}):
         col.discrepancy((ID, lang, "foreign-node", desc(prog, n)), "CFG of method %s contains statement %d (%s) of another method" % (row.get("name"), n, desc(prog, n)), case_fn())
         break
@@ -141,7 +141,10 @@ def check_method(lang, prog, row, cfg, find_first, col, case_fn, shape_key):
             col.error("walker produced a %s outcome at method level for %s" % (outcome, shape_key))
             continue
         ids = [sid for sid, _ in trace]
-        if ids[0] != -1 and ids[0] not in firsts:
+        # the entry may be the method_decl row itself, or the header of a leading do-while (which lian places, as a label,
+        # in front of the body it guards): both have a direct edge to the first executed statement
+        via_label = any((f, ids[0]) in edges and (f == mid or desc(prog, f) == "dowhile_stmt") for f in firsts)
+        if ids[0] != -1 and ids[0] not in firsts and not via_label:
             key = ("entry",)
             if key not in reported:
                 reported.add(key)
@@ -218,8 +221,9 @@ def run_batch(lang, blocks, col, label):
             row = by_name.get("m%d" % i)
             shape_key = (lang, b)
 
-            def case_fn(b=b):
-                return {"lang": lang, "shapes": [b], "source": gen_ctl.render_methods(lang, [b])}
+            def case_fn(b=b, i=i):
+                pad = i % 6
+                return {"lang": lang, "shapes": [b], "pad": pad, "source": gen_ctl.render_methods(lang, [(("s",),)] * pad + [b])}
             if row is None:
                 col.discrepancy((ID, lang, "method-missing"), "method m%d is not in the GIR" % i, case_fn())
                 continue
@@ -295,7 +299,7 @@ def _tuplify(x):
 def check_case(case):
     col = Collector()
     lang = case["lang"]
-    blocks = [_tuplify(b) for b in case["shapes"]]
+    blocks = [(("s",),)] * int(case.get("pad", 0)) + [_tuplify(b) for b in case["shapes"]]
     run_batch(lang, blocks, col, "replayed")
     return col
 
